@@ -339,6 +339,13 @@ func c05Units(tier string) []*Unit {
 		}
 		us = append(us, c05LabelUnit(m, d))
 	}
+	{
+		d := 3
+		if tier == "thorough" {
+			d = 5
+		}
+		us = append(us, c05NameContentBoundaryUnit(d, false), c05NameContentBoundaryUnit(d+1, true))
+	}
 	for _, sh := range shapes {
 		sh := sh
 		depth := 3
@@ -461,6 +468,104 @@ func c05LabelUnit(method string, depth int) *Unit {
 					os.WriteFile(p, []byte(c), 0o644)
 				}
 				return &c05LabelModel{Last: map[string]string{}}
+			}}
+		return runHist(cfg, dir, deadline)
+	}}
+}
+
+// File names and contents that only differ in where the name ends and the content begins
+// (s/a holding "bc", s/ab holding "c", s/abc empty, two empty files a and bc, ...): moving from
+// one such tree to another is a removal plus an addition (a rename plus an edit) and must run the
+// commands again. Histories over {switch to tree k, run}; checksum only (the fingerprint the
+// property defines is "file names and contents").
+type c05TreeModel struct {
+	Last string // tree at the last successful run ("" = never)
+}
+
+func (m *c05TreeModel) Key() string   { return m.Last }
+func (m *c05TreeModel) Clone() hModel { c := *m; return &c }
+
+func c05NameContentBoundaryUnit(depth int, dangling bool) *Unit {
+	name := fmt.Sprintf("hist/checksum/name-content-boundary/depth%d", depth)
+	trees := []map[string]string{
+		{"a": "bc"}, {"ab": "c"}, {"abc": ""}, {"a": "", "bc": ""}, {"a": "b"}, {"ab": ""},
+	}
+	if dangling {
+		// a dangling symbolic link among the matched names is not a file with contents; it must not
+		// make Task blind to the files next to it
+		name = fmt.Sprintf("hist/checksum/dangling-symlink-among-sources/depth%d", depth)
+		trees = []map[string]string{{"a": "1"}, {"a": "2"}, {"a": "1", "b": "1"}}
+	}
+	treeKey := func(dir string) string {
+		var parts []string
+		ents, _ := os.ReadDir(filepath.Join(dir, "s"))
+		for _, e := range ents {
+			if e.Type()&os.ModeSymlink != 0 {
+				continue
+			}
+			b, _ := os.ReadFile(filepath.Join(dir, "s", e.Name()))
+			parts = append(parts, fmt.Sprintf("%q=%q", e.Name(), b))
+		}
+		sort.Strings(parts)
+		return strings.Join(parts, ",")
+	}
+	setTree := func(dir string, t map[string]string) {
+		ents, _ := os.ReadDir(filepath.Join(dir, "s"))
+		for _, e := range ents {
+			if e.Type()&os.ModeSymlink == 0 {
+				os.Remove(filepath.Join(dir, "s", e.Name()))
+			}
+		}
+		for n, c := range t {
+			os.WriteFile(filepath.Join(dir, "s", n), []byte(c), 0o644)
+		}
+	}
+	var evs []hEvent
+	for k, t := range trees {
+		k, t := k, t
+		evs = append(evs, hEvent{Name: fmt.Sprintf("tree-%d", k), Apply: func(dir string, _ hModel, _ []string) []vlab.Violation {
+			setTree(dir, t)
+			return nil
+		}})
+	}
+	evs = append(evs, hEvent{Name: "run", Apply: func(dir string, hm hModel, hist []string) []vlab.Violation {
+		m := hm.(*c05TreeModel)
+		var out []vlab.Violation
+		cur := treeKey(dir)
+		before, _ := os.ReadFile(filepath.Join(dir, "trace.log"))
+		_, se, rc := RunCLI(dir, nil, "", "build")
+		after, _ := os.ReadFile(filepath.Join(dir, "trace.log"))
+		ran := len(after) > len(before)
+		wantRun := m.Last == "" || m.Last != cur
+		tag := "checksum:name_content_boundary"
+		if dangling {
+			tag = "checksum:dangling_symlink_among_sources"
+		}
+		switch {
+		case rc != 0:
+			out = append(out, vlab.V("C05", "run_failed", tag, fmt.Sprintf("status %d (%s) after %v", rc, firstN(se, 120), hist)))
+		case ran && !wantRun:
+			out = append(out, vlab.V("C05", "not_idempotent", tag, fmt.Sprintf("the commands ran again although the matched files {%s} are unchanged since the last successful run (history %v)", cur, hist)))
+		case !ran && wantRun:
+			out = append(out, vlab.V("C05", "change_not_detected", tag, fmt.Sprintf("reported up to date although the matched files changed from {%s} to {%s} since the last successful run (history %v)", m.Last, cur, hist)))
+		}
+		if rc == 0 && ran {
+			m.Last = cur
+		}
+		return out
+	}})
+	tf := "version: '3'\ntasks:\n  build:\n    method: checksum\n    sources: ['s/*']\n    cmds:\n      - 'echo run >> trace.log'\n"
+	return &Unit{Name: name, Weight: 3, Custom: func(u *Unit, dir string, deadline time.Time) *vlab.UnitResult {
+		cfg := hConfig{Name: name, Depth: depth, Events: evs,
+			Ignore: func(p string) bool { return p == "trace.log" },
+			Init: func(dir string) hModel {
+				os.MkdirAll(filepath.Join(dir, "s"), 0o755)
+				os.WriteFile(filepath.Join(dir, "Taskfile.yml"), []byte(tf), 0o644)
+				if dangling {
+					os.Symlink("does-not-exist", filepath.Join(dir, "s", "zz-link"))
+				}
+				setTree(dir, trees[0])
+				return &c05TreeModel{}
 			}}
 		return runHist(cfg, dir, deadline)
 	}}
